@@ -8,6 +8,7 @@ RULE = ("seeded random frame forests (nesting via in, primary-child overrides vi
         "self / ancestor / descendant / other subtree, plain and conditional auxiliaries, stop/abort/start bids at generated "
         "ticks; every framer is checked after every top-level run and at every tick end; every program with a singly used auxiliary framer is also run with that framer turned into a clone of a moot framer (gen.cloneify); distinct = distinct program text; "
         "non-trivial = the program changed some framer's active outline at least 3 times")
+RULE = __import__("vf.core", fromlist=["rule_add"]).rule_add(RULE, 'every program also with its frames declared in another order (children before parents, `under x` after x)')
 META = {"engine": "A floscript", "technique": "invariant at a hook: AST-derived outline vs live .actives / state shares after every run",
         "level_text": "After every scheduler send and at each tick boundary the live active-frame list, the active/human state shares and "
                       "the status of every framer (incl. auxiliaries) are compared with the outline computed from the AST alone, cut at "
